@@ -426,6 +426,14 @@ def invariant(st, where):
         out.append(('pairing', '%s: streams tagged %r, descriptors %r' % (where, st.tags, names)))
     if len(set(names)) != len(names):
         out.append(('unique-names', '%s: duplicate resource names %r' % (where, names)))
+    for r in res:
+        pk = r.get('schema', {}).get('primaryKey')
+        if pk is not None:
+            pkl = [pk] if isinstance(pk, str) else list(pk)
+            declared = [f['name'] for f in r.get('schema', {}).get('fields', [])]
+            if len(set(pkl)) != len(pkl):       # (a key over an undeclared field is an ill-typed request, not checked here)
+                # (the datapackage profile check below is lenient about this; the Table Schema profile is not)
+                out.append(('invalid-primary-key', '%s: resource %r declares primaryKey %r over fields %r' % (where, r.get('name'), pk, declared)))
     for r, rows in zip(res, st.rows):
         schema = r.get('schema', {})
         mv = schema.get('missingValues', [''])
